@@ -1551,3 +1551,150 @@ Theorem layout_equiv_partial : forall w f f', layout_equiv w f f' ->
 Proof.
   intros w f f' H T T'. rewrite !tidy_reads_alike by auto. apply layout_equiv_sound; auto.
 Qed.
+
+(* ---- the current code does not have the property: one witness per mechanism (w = 128) *)
+Definition wt : string := "t" ++ lf.
+Definition mk3 (fr pre p post : list string) : list string := List.app fr (List.app pre (List.app p post)).
+
+(* 1  blanks after the '&' *)
+Definition wit1 : list string := mk3 [wt] [] ["2 0 1 -2 &" ++ lf] ["imp:n=1" ++ lf].
+Definition wit1' : list string := mk3 [wt] [] ["2 0 1 -2 &" ++ blanks 2 "" ++ lf] ["imp:n=1" ++ lf].
+(* 2  a comment line between the '&' line and its continuation *)
+Definition wit2 : list string := mk3 [wt] [] ["2 0 1 -2 &" ++ lf] ["imp:n=1" ++ lf].
+Definition wit2' : list string := mk3 [wt] [] ["2 0 1 -2 &" ++ lf; "c hello" ++ lf] ["imp:n=1" ++ lf].
+(* 3  a comment line whose text ends in " &" *)
+Definition wit3 : list string := mk3 [wt] ["1 0 -1" ++ lf] ["c see" ++ lf] ["2 0 1" ++ lf].
+Definition wit3' : list string := mk3 [wt] ["1 0 -1" ++ lf] ["c see &" ++ lf] ["2 0 1" ++ lf].
+(* 4  a '$' comment whose text ends in " &" *)
+Definition wit4 : list string := mk3 [wt] [] ["1 0 -1 " ++ lf] ["2 0 1" ++ lf].
+Definition wit4' : list string := mk3 [wt] [] ["1 0 -1 " ++ String "$"%char " a &" ++ lf] ["2 0 1" ++ lf].
+(* 5  a '$' comment after the '&' *)
+Definition wit5 : list string := mk3 [wt] [] ["2 0 1 -2 &" ++ lf] ["imp:n=1" ++ lf].
+Definition wit5' : list string := mk3 [wt] [] ["2 0 1 -2 &" ++ String "$"%char " cc" ++ lf] ["imp:n=1" ++ lf].
+
+Lemma front_wt : front [wt] (Some "t").
+Proof. apply (F_title wt). reflexivity. Qed.
+
+Ltac dl := split; reflexivity.
+
+Lemma wit1_step : layout_step wit1 wit1'.
+Proof. apply (LS_data [wt] (Some "t")); [apply front_wt|]. apply DS_trail; try reflexivity; try constructor; dl. Qed.
+
+Lemma wit2_step : layout_step wit2 wit2'.
+Proof. apply (LS_data [wt] (Some "t")); [apply front_wt|]. apply DS_comment_after; try reflexivity; constructor. Qed.
+
+Lemma wit3_step : layout_step wit3 wit3'.
+Proof. apply (LS_data [wt] (Some "t")); [apply front_wt|]. apply DS_comment_text; try reflexivity; constructor. Qed.
+
+Lemma wit4_step : layout_step wit4 wit4'.
+Proof. apply (LS_data [wt] (Some "t")); [apply front_wt|]. apply DS_dollar; try reflexivity; try constructor; dl. Qed.
+
+Lemma wit5_step : layout_step wit5 wit5'.
+Proof. apply (LS_data [wt] (Some "t")); [apply front_wt|]. apply DS_dollar; try reflexivity; try constructor; dl. Qed.
+
+Definition breaks (f f' : list string) : Prop :=
+  layout_step f f' /\ within_limit 128 f = true /\ within_limit 128 f' = true /\
+  read_lines 128 f <> read_lines 128 f'.
+
+Lemma wit1_breaks : breaks wit1 wit1'.
+Proof. split; [apply wit1_step|]. repeat split; try reflexivity. intro H. vm_compute in H. discriminate H. Qed.
+Lemma wit2_breaks : breaks wit2 wit2'.
+Proof. split; [apply wit2_step|]. repeat split; try reflexivity. intro H. vm_compute in H. discriminate H. Qed.
+Lemma wit3_breaks : breaks wit3 wit3'.
+Proof. split; [apply wit3_step|]. repeat split; try reflexivity. intro H. vm_compute in H. discriminate H. Qed.
+Lemma wit4_breaks : breaks wit4 wit4'.
+Proof. split; [apply wit4_step|]. repeat split; try reflexivity. intro H. vm_compute in H. discriminate H. Qed.
+Lemma wit5_breaks : breaks wit5 wit5'.
+Proof. split; [apply wit5_step|]. repeat split; try reflexivity. intro H. vm_compute in H. discriminate H. Qed.
+
+Theorem layout_refuted : exists w f f', layout_equiv w f f' /\ read_lines w f <> read_lines w f'.
+Proof.
+  exists 128, wit1, wit1'. destruct wit1_breaks as (H1 & H2 & H3 & H4). split; auto.
+  apply LE_step; auto.
+Qed.
+
+(* is_comment is not rule S5 *)
+Theorem is_comment_refuted : exists x, all_plain x = true /\ is_comment (x ++ lf) <> spec_comment x.
+Proof. exists "     cz 5". split; [reflexivity|]. intro H. vm_compute in H. discriminate H. Qed.
+
+Theorem is_comment_partial : forall x, all_plain x = true -> late_c x = false ->
+  is_comment (x ++ lf) = spec_comment x.
+Proof. intros x H1 H2. rewrite is_comment_S5, H2, orb_false_r; auto. Qed.
+
+(* ---- non-vacuity: a pair of layouts related by three steps, both tidy, with content *)
+Definition ex_a : list string := mk3 [wt] [] ["2 0 1 -2" ++ lf; blanks 5 "imp:n=1" ++ lf] ["" ++ lf; "1 px 0" ++ lf].
+Definition ex_b : list string := mk3 [wt] [] ["2 0 1 -2" ++ amp2 ++ lf; blanks 1 "imp:n=1" ++ lf] ["" ++ lf; "1 px 0" ++ lf].
+Definition ex_c : list string := mk3 [wt] ["2 0 1 -2" ++ amp2 ++ lf; blanks 1 "imp:n=1" ++ lf; "" ++ lf] ["1 px 0" ++ lf] [].
+Definition ex_d : list string := mk3 [wt] ["2 0 1 -2" ++ amp2 ++ lf; blanks 1 "imp:n=1" ++ lf; "" ++ lf] ["C surfaces" ++ crlf; "1 px 0" ++ lf] [].
+
+Lemma ex_equiv : layout_equiv 128 ex_a ex_d.
+Proof.
+  apply (LE_trans 128 ex_a ex_b).
+  - apply LE_step; try reflexivity.
+    apply (LS_data [wt] (Some "t")); [apply front_wt|].
+    apply DS_amp; try reflexivity; try constructor; try dl.
+  - change ex_b with ex_c. apply LE_step; try reflexivity.
+    apply (LS_data [wt] (Some "t")); [apply front_wt|].
+    apply DS_comment_before; try reflexivity; constructor.
+Qed.
+
+Lemma ex_tidy : amp_tidy 128 ex_a = true /\ amp_tidy 128 ex_d = true.
+Proof. split; reflexivity. Qed.
+
+Lemma ex_value : read_lines 128 ex_d
+  = (Some "t", [(0, ["2"; "0"; "1"; "-2"; "imp:n=1"]); (1, ["1"; "px"; "0"])], None).
+Proof. reflexivity. Qed.
+
+(* ================================================================== K  generated lexer / grammar facts *)
+Fixpoint lbeq {A : Type} (eqb : A -> A -> bool) (a b : list A) : bool :=
+  match a, b with
+  | [], [] => true
+  | x :: a', y :: b' => andb (eqb x y) (lbeq eqb a' b')
+  | _, _ => false
+  end.
+
+Definition lexer_names : list string := map (fun x => fst (fst x)) lexer_flags.
+
+Lemma lexers_listed :
+  lexer_names = ["MCNP_Lexer"; "ParticleLexer"; "CellLexer"; "DataLexer"; "SurfaceLexer"].
+Proof. reflexivity. Qed.
+
+Lemma lexers_ignore_case : forallb (fun x => snd x) lexer_flags = true.
+Proof. reflexivity. Qed.
+
+Definition rule_of (lexer rule : string) : list string :=
+  map (fun x => snd x)
+      (filter (fun x => andb (String.eqb (fst (fst x)) lexer) (String.eqb (snd (fst x)) rule)) layout_rules).
+
+(* every lexer: white space is one token whatever its length, '$' comments run to the end of the line,
+   a C comment is "C" + end of line or "C" + a white space character + the rest of the line *)
+Lemma lexer_layout_rules :
+  forallb (fun lx => andb (lbeq String.eqb (rule_of lx "SPACE") ["(\s+)"])
+                    (andb (lbeq String.eqb (rule_of lx "DOLLAR_COMMENT") ["(\$.*)"])
+                          (lbeq String.eqb (rule_of lx "COMMENT") ["(C\n)|(C\s.*)"])))
+          lexer_names = true.
+Proof. reflexivity. Qed.
+
+Definition alts_of (parser nt : string) : list (list (list string)) :=
+  map (fun x => snd x)
+      (filter (fun x => andb (String.eqb (fst (fst x)) parser) (String.eqb (snd (fst x)) nt)) layout_grammar).
+
+Definition lls_beq : list (list (list string)) -> list (list (list string)) -> bool := lbeq (lbeq (lbeq String.eqb)).
+
+(* every parser: padding is any sequence of white space, comments and '&' (not first);
+   a key and its value are separated by padding, by '=' or by both *)
+Lemma grammar_layout_rules :
+  forallb (fun p =>
+    andb (lls_beq (alts_of p "padding")
+            [[["COMMENT"]; ["DOLLAR_COMMENT"]; ["SPACE"]; ["padding"; "&"]; ["padding"; "COMMENT"];
+              ["padding"; "DOLLAR_COMMENT"]; ["padding"; "SPACE"]]])
+    (andb (lls_beq (alts_of p "equals_sign") [[["="]; ["="; "padding"]]])
+          (lls_beq (alts_of p "param_seperator") [[["equals_sign"]; ["padding"]; ["padding"; "equals_sign"]]])))
+    ["cell"; "surface"; "data"; "read"] = true.
+Proof. reflexivity. Qed.
+
+(* the constants of the model are those of montepy/constants.py *)
+Lemma constants_agree :
+  blank_space_continue = BLANK_SPACE_CONTINUE /\ tabsize = TABSIZE /\ ascii_ceiling = ASCII_CEILING /\
+  line_length = [([5; 1; 60], 80); ([6; 1; 0], 80); ([6; 2; 0], 128)] /\ default_version = [6; 2; 0].
+Proof. repeat split; reflexivity. Qed.
